@@ -483,10 +483,17 @@ type stats struct {
 	StricterRefuse int64            // refused although T0 satisfies the limits (allowed)
 	MaxWritten     int64
 	BytesWritten   int64
-	Samples        []any
+	Samples        map[string]sampleRec // one per (family, backend, outcome kind): the first in enumeration order
 }
 
-func newStats() *stats { return &stats{ByFamily: map[string]int64{}, Outcomes: map[string]int64{}} }
+type sampleRec struct {
+	Key int64
+	S   map[string]any
+}
+
+func newStats() *stats {
+	return &stats{ByFamily: map[string]int64{}, Outcomes: map[string]int64{}, Samples: map[string]sampleRec{}}
+}
 
 func (s *stats) merge(o *stats) {
 	s.Evaluations += o.Evaluations
@@ -506,6 +513,11 @@ func (s *stats) merge(o *stats) {
 	for k, v := range o.Outcomes {
 		s.Outcomes[k] += v
 	}
+	for k, v := range o.Samples {
+		if old, ok := s.Samples[k]; !ok || v.Key < old.Key {
+			s.Samples[k] = v
+		}
+	}
 }
 
 type replay struct {
@@ -523,7 +535,7 @@ type job struct {
 	arch    *archive
 	backend string
 	mode    string // full | sparse | file-total
-	sample  bool
+	idx     int
 }
 
 func isFinite(c limitsCfg) bool {
@@ -606,8 +618,12 @@ func runJob(rep *ev.Reporter, j job, osRoot string, st *stats) {
 				}
 				rep.Violation(f.Sig+":backend="+j.backend, replay{Backend: j.backend, Archive: *j.arch, Limits: c, Desc: describe(j.arch.Kids), Result: resultString(r), Detail: f.Detail})
 			}
-			if j.sample && len(st.Samples) < 4 && (ci == len(cfgs)/2 || ci == len(cfgs)-1) {
-				st.Samples = append(st.Samples, map[string]any{"backend": j.backend, "family": j.arch.Family, "archive": describe(j.arch.Kids), "limits": c.String(), "T0": fmt.Sprintf("files=%d total=%d maxfile=%d depth=%d", t0.M.Files, t0.M.Total, t0.M.MaxFile, t0.M.Depth), "result": resultString(r)})
+			if r.Entered && isFinite(c) && len(j.arch.Kids) > 1 {
+				sk := j.arch.Family + "/" + j.backend + "/" + r.Kind
+				key := int64(j.idx)*1_000_000 + int64(b2i(rec))*500_000 + int64(ci)
+				if old, ok := st.Samples[sk]; !ok || key < old.Key {
+					st.Samples[sk] = sampleRec{key, map[string]any{"backend": j.backend, "family": j.arch.Family, "archive": describe(j.arch.Kids), "limits": c.String(), "T0": resultString(t0), "result": resultString(r)}}
+				}
 			}
 		}
 	}
@@ -731,7 +747,7 @@ func TestC03(t *testing.T) {
 	add := func(as []archive, backend, mode string, stride int) {
 		for i := range as {
 			if i%stride == 0 {
-				jobs = append(jobs, job{arch: &as[i], backend: backend, mode: mode, sample: i == len(as)/2})
+				jobs = append(jobs, job{arch: &as[i], backend: backend, mode: mode, idx: len(jobs)})
 			}
 		}
 	}
@@ -815,14 +831,14 @@ func TestC03(t *testing.T) {
 	for _, p := range parts {
 		total.merge(p)
 	}
-	// samples: deterministic (from the flagged jobs, re-run sequentially)
-	sst := newStats()
-	for _, j := range jobs {
-		if j.sample && j.backend == "mem" && len(sst.Samples) < 12 {
-			one := newStats()
-			runSampleOnly(j, osRoot, one)
-			sst.Samples = append(sst.Samples, one.Samples...)
-		}
+	var sampleKeys []string
+	for k := range total.Samples {
+		sampleKeys = append(sampleKeys, k)
+	}
+	sort.Strings(sampleKeys)
+	var samples []any
+	for _, k := range sampleKeys {
+		samples = append(samples, total.Samples[k].S)
 	}
 
 	rep.Coverage["evaluations"] = total.Evaluations
@@ -840,7 +856,7 @@ func TestC03(t *testing.T) {
 	rep.Coverage["bytes_written_total"] = total.BytesWritten
 	rep.Coverage["bound"] = bound
 	rep.Coverage["exhaustive"] = true
-	rep.Coverage["samples"] = sst.Samples
+	rep.Coverage["samples"] = samples
 	rep.Coverage["observations"] = []string{
 		"truncated_to_announced_size counts successful extractions of an archive whose stream is LONGER than announced: the file is cut to the announced size and no error is raised (recorded, not asserted: DESIGN.md §4 C03)",
 		"a lie confined to the local header is invisible to the extractor (archive/zip reads sizes from the central directory)",
@@ -852,12 +868,6 @@ func TestC03(t *testing.T) {
 		"archive/zip (Go standard library) is the reader the repository uses; its behaviour on lying headers is part of what is explored, not assumed",
 	}
 	rep.Finish()
-}
-
-// runSampleOnly re-runs a flagged job without oracle side effects, to collect samples in a deterministic order.
-func runSampleOnly(j job, osRoot string, st *stats) {
-	silent := ev.NewReporter("C03-samples", "exploration")
-	runJob(silent, j, osRoot, st)
 }
 
 // ---- replay -----------------------------------------------------------------------------------------------------------------
